@@ -35,6 +35,7 @@ type specEnv struct {
 	results  []Val
 	resName  []string
 	depth    int
+	inTrigger bool
 }
 
 func (e *specEnv) with(names map[string]Val) *specEnv {
@@ -106,6 +107,16 @@ func (e *specEnv) eval(s Spec) Val {
 			_ = guards
 		}
 		inner := e.with(names)
+		if e.oldNames != nil { // bound variables are visible inside old(...) as well
+			on := map[string]Val{}
+			for k, v := range e.oldNames {
+				on[k] = v
+			}
+			for k, v := range names {
+				on[k] = v
+			}
+			inner.oldNames = on
+		}
 		body := inner.eval(s.Body)
 		q := "forall"
 		if !s.Forall {
@@ -114,6 +125,7 @@ func (e *specEnv) eval(s Spec) Val {
 		bt := body.T
 		if len(s.Trig) > 0 {
 			var ps []string
+			inner.inTrigger = true
 			for _, t := range s.Trig {
 				tv := inner.eval(t)
 				if tv.K != nil {
@@ -436,7 +448,12 @@ func (e *specEnv) objVal(o types.Object) Val {
 	case *types.Const:
 		return e.constVal(o)
 	case *types.Var:
-		// package-level variable: read through its global cell
+		// package-level variable: its initial value if the module never assigns it, else its global cell
+		if gv := e.tr.G.globalOf(o); gv != nil {
+			if c := e.tr.G.constGlobal(gv); c != nil {
+				return e.tr.constVal(c)
+			}
+		}
 		g := e.tr.globalRef(o)
 		pl := e.tr.placeOfPtr(g, o.Type())
 		return e.tr.loadPlace(pl, e.heap)
@@ -582,6 +599,9 @@ func (e *specEnv) index(base, idx Val) Val {
 		k := e.coerce(idx, u.Key())
 		dom, val, _ := tr.C.mapKeys(tr.C.sortOf(u.Key()), tr.C.sortOf(u.Elem()))
 		present := and(not(eq(base.T, "0")), sel(sel(tr.C.hget(e.heap, dom), base.T), k.T))
+		if e.inTrigger {
+			return Val{T: sel(sel(tr.C.hget(e.heap, val), base.T), k.T), Ty: u.Elem()}
+		}
 		return Val{T: ite(present, sel(sel(tr.C.hget(e.heap, val), base.T), k.T), tr.C.zero(u.Elem())), Ty: u.Elem()}
 	case *types.Basic:
 		if isString(base.Ty) {
@@ -783,6 +803,12 @@ func (e *specEnv) call(x *ast.CallExpr, sg *SGo) Val {
 			ref = app("s.arr", v.T)
 		}
 		return Val{T: app(">=", ref, e.oldA), Ty: tBool}
+	case "alive": // alive(x): the reference has been allocated by now (it is below the current allocation counter)
+		v := arg(0)
+		if e.curA == "" {
+			sfail("alive() not available here")
+		}
+		return Val{T: app("<", refOf(v), e.curA), Ty: tBool}
 	case "allocated": // allocated(x): reference exists in the pre-state
 		v := arg(0)
 		ref := v.T
@@ -822,6 +848,9 @@ func (e *specEnv) call(x *ast.CallExpr, sg *SGo) Val {
 		}
 		k = e.coerce(k, mt.Key())
 		dom, _, _ := tr.C.mapKeys(tr.C.sortOf(mt.Key()), tr.C.sortOf(mt.Elem()))
+		if e.inTrigger { // patterns may not contain connectives: the bare domain lookup
+			return Val{T: sel(sel(tr.C.hget(e.heap, dom), m.T), k.T), Ty: tBool}
+		}
 		return Val{T: and(not(eq(m.T, "0")), sel(sel(tr.C.hget(e.heap, dom), m.T), k.T)), Ty: tBool}
 	case "typeis": // typeis(x, T): dynamic type of interface value x is T
 		v := arg(0)
